@@ -22,7 +22,8 @@ LEVEL = "exploration"
 RULE = ("algebraic laws of rotations on the public API for every coordinate system of the rotated vector "
         "(2 + 6 + 12), every Euler order in both letter cases, axes in all 6 systems, angles in all quadrants, "
         "near multiples of pi/2 and large; a cell is (law, vector system, variant, backend), non-trivial when both "
-        "sides of the law were evaluated and compared")
+        "sides of the law were evaluated and compared"
+        " Backends: 60-digit objects, float64 objects, one-element NumPy and Awkward arrays.")
 ASSUMPTIONS = [
     "laws are compared through the monitor's own readout of stored coordinates and its own conversions",
     "rotate_euler(phi,theta,psi,'abc') is the documented product rotateA(-psi) o rotateB(-theta) o rotateC(-phi) (ROOT EulerAngles); "
@@ -34,7 +35,7 @@ SHARD_TIMEOUT = {"quick": 900, "thorough": 7200}
 
 
 def plan(tier, seed):
-    return [{"vsys": list(s), "mode": m} for s in R.ALL_SYSTEMS for m in ("mp", "f64")]
+    return [{"vsys": list(s), "mode": m} for s in R.ALL_SYSTEMS for m in ("mp", "f64", "numpy", "awkward")]
 
 
 def _temporal_untouched(J, cell, law, V, W_, det):
@@ -42,9 +43,12 @@ def _temporal_untouched(J, cell, law, V, W_, det):
     if not hasattr(V, "temporal"):
         return
     ok = hasattr(W_, "temporal") and type(W_.temporal) is type(V.temporal)
-    if ok:
+    if ok and isinstance(V.temporal, tuple):
         a, b = tuple.__getitem__(V.temporal, 0), tuple.__getitem__(W_.temporal, 0)
         ok = (a is b) or (B.bits(a) == B.bits(b))
+    elif ok:  # one-element array: compare the stored temporal column
+        (_, sv, cv, _, _), (_, sw, cw, _, _) = B.stored_columns(V), B.stored_columns(W_)
+        ok = sv[-1] == sw[-1] and [B.bits(float(x)) for x in cv[-1]] == [B.bits(float(x)) for x in cw[-1]]
     J.exact("time/proper time untouched bit-for-bit: " + law, cell, ok,
             {**det, "operand_temporal": repr(V.temporal), "result_temporal": repr(getattr(W_, "temporal", None))})
 
@@ -70,7 +74,7 @@ def run_shard(spec, tier, seed):
             return gen.vec4(r, core=core, wide=not core, forward=True)
         return gen.vec(r, dim, core=core, wide=not core)
 
-    for di in range(DRAWS[tier]):
+    for di in range(DRAWS[tier] if mode.name in ("mp", "f64") else max(4, DRAWS[tier] // 5)):
         a_rv, alab = genv()
         b_rv, _ = genv()
         c_rv, _ = genv()
